@@ -194,4 +194,14 @@ def match_known(known: List[Dict[str, Any]], v: Violation) -> Optional[Dict[str,
     for k in known:
         if k["rule"] == v.rule and k["construct"] == v.construct:
             return k
+    # A finding may also be identified by WHAT fails and THROUGH WHICH public entry points (`match`): the same operation
+    # raising the same exception, reachable from no entry point other than the listed ones, is the same finding even when
+    # the statement was moved into a helper or another module. Another operation, exception or entry point is a new violation.
+    same = [k for k in known if k["rule"] == v.rule and k.get("match") and k["match"].get("operation") == v.detail.get("operation")
+            and k["match"].get("exception") == v.detail.get("exception")]
+    if same and v.detail.get("escapes_from"):
+        entries = {e for k in same for e in k["match"].get("entries", [])}
+        origins = {o for k in same for o in k["match"].get("origins", [])}
+        if set(v.detail["escapes_from"]) <= entries and set(v.detail.get("origins") or []) <= origins and bool(v.detail.get("origins")) == bool(origins):
+            return same[0]
     return None
